@@ -9,18 +9,49 @@ JOIN = ["G", 200, "scaffold"]
 class C07(PipelineProp):
     pid = "C07"
     design_ref = "6/C07"
-    required_theorems = ['C07_fuse_is_join', 'C07_fusion_boundary_has_gap', 'C07_no_terminal_gap', 'C07_results_have_no_terminal_gap', 'C07_leftovers_have_no_terminal_gap', 'C07_adjacent_only_within_piece', 'C07_leftover_adjacency_is_input_adjacency', 'C07_legacy_refuted', 'C07_gap_provenance', 'C07_results_hold_input_gaps', 'C07_output_scaffolds_well_formed']
+    required_theorems = ['C07_fuse_is_join', 'C07_fusion_boundary_has_gap', 'C07_no_terminal_gap', 'C07_results_have_no_terminal_gap', 'C07_leftovers_have_no_terminal_gap', 'C07_adjacent_only_within_piece', 'C07_leftover_adjacency_is_input_adjacency', 'C07_legacy_refuted', 'C07_gap_provenance', 'C07_results_hold_input_gaps', 'C07_output_scaffolds_well_formed', 'C07_neighbour_gaps', 'C07_two_case_statement_refuted', 'C07_neighbour_gaps_uniform']
 
     def rule(self):
         return (
             "PretextView-model maps biased to unpainted scaffolds whose trailing contigs fall inside the final "
             "partial texel, scaffolds absent from the map, cut contigs whose halves meet again (75%), plus perturbed "
-            "maps (25%, clauses 1-2 only); output rows walked against an index of input adjacencies and their gaps. "
-            "non-trivial = distinct completed case"
+            "maps (25%) and sparse maps (15%: a few baits that show single contigs from the middle of scaffolds, so that "
+            "never-found contigs lie on both sides of found ones; input scaffolds with leading / trailing gap rows in 15%); "
+            "output rows walked against the input: every pair of consecutive fragments with the gap rows between them "
+            "must be a join (exactly the join gap), the same two input neighbours with exactly their input gap run "
+            "(either direction), or -- outside PretextView-model maps only -- the third case of theorem "
+            "C07_neighbour_gaps. non-trivial = distinct completed case"
         )
 
     def gen_case(self, rng):
         inp = P.gen_input(rng, style=rng.choice(["tpf", "fasta", "tpf"]), double_gaps=0.2)
+        if rng.random() < 0.15:
+            # scaffolds that begin and / or end with gap rows (a FASTA record beginning with Ns, a
+            # TPF with a terminal GAP line): no output scaffold may keep them
+            for sc in inp["scaffolds"]:
+                own = sc["rows"][0][1] == sc["name"]
+                if rng.random() < 0.6:
+                    g = rng.choice([1, 40, 150])
+                    sc["rows"] = [["G", g, "scaffold"]] + [
+                        (["F", r[1], r[2] + g, r[3] + g, r[4], r[5]] if (r[0] == "F" and own) else r) for r in sc["rows"]]
+                if rng.random() < 0.6:
+                    sc["rows"] = sc["rows"] + [["G", rng.choice([1, 40, 150]), "scaffold"]]
+            profile = rng.choice(["null", "null", "edit"])
+            ptx, pieces = P.gen_pretext(rng, inp, profile)
+            return {"gen": "termgap/" + profile, "input": inp, "pretext": ptx, "prefix": "SUPER_", "pv": False}
+        if rng.random() < 0.15:
+            # sparse map: single contigs out of the middle of scaffolds
+            scs = []
+            total = sum(P.sc_len(sc) for sc in inp["scaffolds"])
+            for sc in inp["scaffolds"]:
+                spans = [(a, b) for a, b, r in P.scaffold_spans(sc) if r[0] == "F"]
+                for a, b in spans:
+                    if rng.random() < 0.35:
+                        scs.append({"name": f"Scaffold_{len(scs) + 1}",
+                                    "rows": [["F", sc["name"], a, b, rng.choice([1, -1]), rng.choice([[], ["Painted"]])]]})
+            if scs:
+                return {"gen": "sparse", "input": inp, "pretext": {"bpt": rng.choice(["1.000000", P.choose_bpt(rng, max(total, 1))]),
+                                                                    "scaffolds": scs}, "prefix": "SUPER_", "pv": False}
         # small trailing contigs so that the last texel matters
         for sc in inp["scaffolds"]:
             if rng.random() < 0.5 and sc["rows"][-1][0] == "F":
@@ -45,13 +76,38 @@ class C07(PipelineProp):
             gen = "garbage"
         return {"gen": gen, "input": inp, "pretext": ptx, "prefix": "SUPER_", "pv": pv}
 
+    @staticmethod
+    def piece_of(sg, o, f):
+        return f[1] == o[1] and o[2] <= f[2] and f[3] <= o[3] and f[4] == sg * o[4]
+
+    def input_index(self, case):
+        same, skipped = [], []
+        for sc in case["input"]["scaffolds"]:
+            prev, gaps, seen = None, [], []
+            for r in sc["rows"]:
+                if r[0] == "G":
+                    gaps.append(r)
+                    continue
+                if prev is not None:
+                    same.append((prev, list(gaps), r))
+                    if gaps:
+                        # never-found contigs further left, at least one other contig between
+                        for ox in seen[:-1]:
+                            skipped.append((ox, gaps[-1], r))
+                seen.append(r)
+                prev, gaps = r, []
+        return same, skipped
+
     def oracle(self, case, obs):
         if "err" in obs:
             return None
-        a_in = P.adjacencies(case["input"]["scaffolds"])
+        same, skipped = self.input_index(case)
+        po = self.piece_of
         for sc in P.all_out_scaffolds(obs):
             rows = sc["rows"]
-            if rows and (rows[0][0] == "G" or rows[-1][0] == "G"):
+            if not rows:
+                return f"output scaffold {sc['name']} has no rows"
+            if rows[0][0] == "G" or rows[-1][0] == "G":
                 return f"output scaffold {sc['name']} begins or ends with a gap"
             prev = None
             gaps = []
@@ -60,21 +116,18 @@ class C07(PipelineProp):
                     gaps.append(r)
                     continue
                 if prev is not None:
-                    pair = frozenset((P.tail_end(prev), P.head_end(r)))
-                    if not gaps:
-                        if pair not in a_in or a_in[pair]:
-                            return (f"in {sc['name']}: {prev[1]}:{prev[2]}-{prev[3]} and {r[1]}:{r[2]}-{r[3]} are "
-                                    f"directly adjacent but were not directly adjacent in the input")
-                    elif case.get("pv"):
-                        if pair in a_in and a_in[pair] and all(g_ in a_in[pair] for g_ in gaps) and len(gaps) <= len(a_in[pair]):
-                            # every gap row is an input gap row separating the same two neighbours (for a run of
-                            # consecutive input gaps the left-over path keeps the last one only: DESIGN.md 13.5)
-                            pass
-                        elif gaps == [JOIN]:
-                            pass
-                        else:
-                            return (f"in {sc['name']}: gap rows {gaps} between {prev[1]}:{prev[2]}-{prev[3]} and "
-                                    f"{r[1]}:{r[2]}-{r[3]} are neither their input gap nor the join gap")
+                    x, y = prev, r
+                    is_same = any((m == gaps and po(1, ox, x) and po(1, oy, y))
+                                  or (m == gaps[::-1] and po(-1, oy, x) and po(-1, ox, y)) for ox, m, oy in same)
+                    if not gaps and not is_same:
+                        return (f"in {sc['name']}: {x[1]}:{x[2]}-{x[3]} and {y[1]}:{y[2]}-{y[3]} are "
+                                f"directly adjacent but were not directly adjacent in the input")
+                    if gaps and not is_same and gaps != [JOIN]:
+                        third = any(gaps == [gp] and po(1, ox, x) and po(1, oy, y) for ox, gp, oy in skipped)
+                        if case.get("pv") or not third:
+                            return (f"in {sc['name']}: gap rows {gaps} between {x[1]}:{x[2]}-{x[3]} and "
+                                    f"{y[1]}:{y[2]}-{y[3]} are neither the gap run that separated these two contigs "
+                                    f"in the input nor the join gap")
                 prev = r
                 gaps = []
         return None
